@@ -17,6 +17,7 @@ def main():
     for a in lc.ALPHABETS:
         jobs.append(("MC_Lexer", lc.lexer_cfg(a, 5, lc.ALPHABETS[a]), "lex-%s-5" % a))
     jobs.append(("MC_LayoutPairs", c10.PAIRS_CFG, "layout-pairs"))
+    jobs.append(("MC_LayoutKinds", "INIT Init\nNEXT Next\nINVARIANTS RuleEquivalent NeverTwoNl\nCHECK_DEADLOCK FALSE\n", "layout-kinds"))
     ops = ["sum", "quot", "lt"]
     jobs += [("MC_Programs", pc.prog_cfg(6, ops), "prog-s6"), ("MC_Programs", pc.prog_cfg(5, ops), "prog-s5"),
              ("MC_Programs", pc.prog_cfg(5, ["sum", "lt"], holes=True), "prog-holes"), ("MC_Programs", pc.prog_cfg(4, ["sum", "lt"], holes=True), "prog-holes4"),
